@@ -23,7 +23,7 @@ PROFILE = dict(plang.BASE, ntasks=(1, 6), nseg=(1, 3), nleaf=(0, 3), depth=2, p_
                p_const=0.2, p_none=0.1, p_raise=0.15, p_catch=0.4, p_result=0.0, flush_modes=("ok",), ncalls=1,
                convs=("call",))
 TIERS = {
-    "quick": dict(random=2500, ntasks=(1, 6), seeds=(0, 1, 2), rich=False),
+    "quick": dict(random=1500, ntasks=(1, 6), seeds=(0, 1, 2), rich=False),
     "thorough": dict(random=20000, ntasks=(1, 8), seeds=(0, 1, 2, 3, 4, 5), rich=True),
 }
 
@@ -253,12 +253,13 @@ def main():
             if len(lst) != 1 or lst[0]["out"] != lst[0]["ref"] or lst[0]["mode_after"] or not lst[0]["refused"]:
                 raise MachineryError("AsyncioBridge.tla does not prescribe one outcome for program %d: %s" % (i, json.dumps(lst)[:600]))
         seeds = TIERS[tier]["seeds"]
-        # seed 0 = plain functions only (no registry): no pre-history; other seeds: every pre-history the spec lists
+        # seed 0 = plain functions only (no registry): no pre-history; seed 1: every pre-history the spec lists;
+        # seed 2: all of them in the thorough tier; otherwise none/created
         cases = []
         for i, p in enumerate(progs):
             pres = sorted(exp[i + 1][0]["pres"], key=["none", "created", "computed", "other"].index)
             for s in seeds:
-                for pre in (pres if s else ["none"]):
+                for pre in (["none"] if s == 0 else pres if (s == 1 or (s == 2 and tier == "thorough")) else pres[:2]):
                     cases.append({"id": len(cases), "pi": i, "prog": p, "seed": s, "pre": pre, "exp": exp[i + 1][0]["ref"]})
         total = 0
         nmis = 0
@@ -296,7 +297,7 @@ def main():
             for i in sorted(traces):
                 groups.setdefault((cases[i]["pi"], json.dumps(traces[i])), []).append(i)
             reps = sorted(g[0] for g in groups.values())
-            hs2, res2 = run_spec([{"prog": cases[i]["prog"], "trace": traces[i]} for i in reps], sc, "traces-%s.json" % bname)
+            hs2, res2 = run_spec([{"prog": cases[i]["prog"], "trace": traces[i], "pre": cases[i]["pre"]} for i in reps], sc, "traces-%s.json" % bname)
             states += res2.distinct
             trans += res2.generated
             ok_reps = {reps[h["pid"] - 1] for h in hs2 if h.get("traced") == 1}
@@ -333,7 +334,7 @@ def main():
             "model_ok": res.ok, "mismatching_cases": nmis, "violation_signatures": sigs,
             "evaluations": total + sum(1 for c in cases if c["pre"] == "none") * len(builds), "distinct_nontrivial": nontriv,
             "rule": "every program with a root of one yield over %d structures (or two yields over %d) x catch x return/raise, plus %d "
-                    "sampled programs of up to %d tasks; each run with %d realisation seeds (x 4 asynq-mode pre-histories for seeds > 0) through asyncio, and through asynq; "
+                    "sampled programs of up to %d tasks; each run with %d realisation seeds (seed 1, in the thorough tier also seed 2, x 4 asynq-mode pre-histories; later seeds x 2) through asyncio, and through asynq; "
                     "non-trivial = at least 3 tasks" % (len(structs(TIERS[tier]["rich"])), len(small_structs(TIERS[tier]["rich"])),
                                                          TIERS[tier]["random"], TIERS[tier]["ntasks"][1], len(seeds)),
             "exhaustive": True,
